@@ -1326,6 +1326,8 @@ def scenario_producer_e2e(rnd, n):
                 if not s['out']:
                     script.append(('cancel', s['sid']))
                     s['cancelled'] = True
+                    # still queued (not handed to a batch): the messages must never be transmitted
+                    s['before_dispatch'] = any(q.deferred is s['d'] for q in prod._batch_reqs)
                     s['d'].cancel()
         # drain: brokers answer what is pending (leaders acknowledge), timers run, then the producer is stopped
         md_fail[0] = False
@@ -1351,6 +1353,8 @@ def scenario_producer_e2e(rnd, n):
             carriers = [e for e in world['log'] for (t, p), ms in e['parts'].items() if any(v == uniq for k, v, mg in ms)]
             if len(s['out']) != 1:
                 raise Hit('C01:send-deferred-fired-%d-times' % len(s['out']), s['sid'])
+            if s.get('before_dispatch') and carriers:
+                raise Hit('C19:send-cancelled-before-dispatch-was-transmitted', (s['sid'], [e['seq'] for e in carriers]))
             res = s['out'][0]
             acked = []
             for e in carriers:
